@@ -1,5 +1,9 @@
 package c12
 
+import (
+	"math"
+)
+
 // corpus holds minimal failing inputs of the known findings (findings.d/C12.jsonl); it runs first in every
 // tier so that each listed finding is reached deterministically even if a later phase is cut by the deadline.
 // Each entry is replayed through replayCase, i.e. evaluated on all routes and judged by the same oracle as
@@ -36,4 +40,13 @@ var corpus = []Case{
 	{Kind: "literalN", Str: "0x8000000000000401"},
 	{Kind: "literalN", Str: "0b10000000000000000000000000000000000000000000000000000000000000000"},
 	{Kind: "literalN", Str: "0o2000000000000000000000"},
+}
+
+// The float64 accumulation of parseInt also overflows to +Infinity for integers just below the largest double:
+// the radix-3 texts of (max double - 1 ulp), of the halfway integer above it and of its neighbours.
+func init() {
+	x := math.Float64frombits(0x7feffffffffffffe)
+	for _, I := range intTexts(x) {
+		corpus = append(corpus, Case{Kind: "parseInt", Str: I.Text(3), Arg: 3})
+	}
 }
